@@ -41,6 +41,7 @@ package calendar
 //@ # shape facts of the real tables that the model of *LunarYear relies on (15 months, 31 terms, integral first days)
 //@ spec func tableShape(y int) bool
 //@   = llen(yt(y).GetMonths()) == 15 && len(yt(y).GetJieQiJulianDays()) == 31 && yt(y).GetYear() == y &&
+//@     yt(y).GetGanIndex() == modf(y-4, 10) && yt(y).GetZhiIndex() == modf(y-4, 12) &&
 //@     all(0, 14, func(i int) bool { return ytMonth(y, i).GetFirstJulianDay() == float64(mF(y, i)) && ytMonth(y, i).GetZhiIndex() == modf(mI(y, i)+1, 12) &&
 //@       1 <= mI(y, i) && mI(y, i) <= 13 && mM(y, i) != 0 && -12 <= mM(y, i) && mM(y, i) <= 12 && 28 <= mD(y, i) && mD(y, i) <= 30 })
 
@@ -699,10 +700,10 @@ package calendar
 //@ sweep SolarHalfYear: inYears(self.year) && 1 <= self.month && self.month <= 12 [C08]
 //@ sweep SolarYear: inYears(self.year) [C08]
 //@ sweep Yun: self.lunar != nil && 0 <= self.startYear && self.startYear <= 10 && 0 <= self.startMonth && self.startMonth <= 11 && 0 <= self.startDay && self.startDay <= 29 && 0 <= self.startHour && self.startHour <= 23 && self.lunar.solar.year <= 9900 [C08]
-//@ sweep DaYun: self.lunar != nil && self.yun != nil && self.yun.lunar != nil && 0 <= self.index && self.index <= 9 && 0 <= self.startYear && self.startYear <= 10000 && self.startYear <= self.endYear && self.endYear <= self.startYear+10 && 1 <= self.startAge && self.startAge <= 200 [C08]
-//@ sweep LiuNian: self.lunar != nil && self.daYun != nil && 0 <= self.index && self.index <= 9 && 0 <= self.daYun.index && self.daYun.index <= 9 && 1 <= self.daYun.startAge && self.daYun.startAge <= 200 && 0 <= self.year && self.year <= 10000 [C08]
-//@ sweep LiuYue: self.liuNian != nil && self.liuNian.lunar != nil && self.liuNian.daYun != nil && 0 <= self.index && self.index <= 11 && 0 <= self.liuNian.year && self.liuNian.year <= 10000 [C08]
-//@ sweep XiaoYun: self.lunar != nil && self.daYun != nil && 0 <= self.index && self.index <= 9 && 0 <= self.daYun.index && self.daYun.index <= 9 && 1 <= self.daYun.startAge && self.daYun.startAge <= 200 [C08]
+//@ sweep DaYun: self.lunar != nil && self.yun != nil && self.yun.lunar != nil && 0 <= self.index && self.index <= 9 && 0 <= self.startYear && self.startYear <= 10000 && self.startYear <= self.endYear && self.endYear <= self.startYear+10 && 1 <= self.startAge && self.startAge <= 200 && modf(self.lunar.monthGanIndexExact, 2) == modf(self.lunar.monthZhiIndexExact, 2) [C08]
+//@ sweep LiuNian: self.lunar != nil && self.daYun != nil && 0 <= self.index && self.index <= 9 && 0 <= self.daYun.index && self.daYun.index <= 9 && 1 <= self.daYun.startAge && self.daYun.startAge <= 200 && 0 <= self.year && self.year <= 10000 && 2 <= self.lunar.solar.year && self.lunar.solar.year <= 9900 && self.lunar.solar.year != 15 && self.lunar.solar.year != 18 [C08]
+//@ sweep LiuYue: self.liuNian != nil && self.liuNian.lunar != nil && self.liuNian.daYun != nil && 0 <= self.index && self.index <= 11 && 0 <= self.liuNian.year && self.liuNian.year <= 10000 && self.liuNian.index <= 9 && self.liuNian.daYun.index <= 9 && 2 <= self.liuNian.lunar.solar.year && self.liuNian.lunar.solar.year <= 9900 && self.liuNian.lunar.solar.year != 15 && self.liuNian.lunar.solar.year != 18 [C08]
+//@ sweep XiaoYun: self.lunar != nil && self.daYun != nil && 0 <= self.index && self.index <= 9 && 0 <= self.daYun.index && self.daYun.index <= 9 && 1 <= self.daYun.startAge && self.daYun.startAge <= 200 && self.lunar.solar.year <= 9999 && modf(self.lunar.timeGanIndex, 2) == modf(self.lunar.timeZhiIndex, 2) [C08]
 //@ sweep Tao: self.lunar != nil [C08]
 //@ sweep Foto: self.lunar != nil [C08]
 //@ sweep Lunar LunarYear LunarMonth LunarTime EightChar NineStar JieQi Fu ShuJiu TaoFestival FotoFestival [C08]
@@ -764,7 +765,7 @@ package calendar
 
 //@ # every derived attribute of an eight-character pillar is computed from that pillar as selected by the current
 //@ # day-boundary convention (sect 1: early-rat day pillar, sect 2: late-rat)
-//@ ghost func eightCharByPillar(l *Lunar, sect int) [C11]
+//@ ghost func eightCharByPillar(l *Lunar, sect int) [C11 C18]
 //@   requires sect == 1 || sect == 2
 //@   body
 //@     ec := NewEightChar(l)
@@ -783,7 +784,7 @@ package calendar
 //@ spec func diShiIndex(dayGan int, zhi int) int
 //@   = modf(ite(modf(dayGan, 2) == 0, changShengOffset[LunarUtil.GAN[dayGan+1]]+zhi, changShengOffset[LunarUtil.GAN[dayGan+1]]-zhi), 12)
 
-//@ ghost func eightCharDiShi(l *Lunar, sect int) [C11]
+//@ ghost func eightCharDiShi(l *Lunar, sect int) [C11 C18]
 //@   requires sect == 1 || sect == 2
 //@   split ite(sect == 1, l.dayGanIndexExact, l.dayGanIndexExact2) in 0..9
 //@   body
@@ -919,7 +920,9 @@ package calendar
 //@   ensures implies(result != nil, result.index == modf(sjdn(lunar.solar)-shuJiuBase(lunar), 9)+1 && result.name == LunarUtil.NUMBER[divf(sjdn(lunar.solar)-shuJiuBase(lunar), 9)+1]+"九")
 //@   hint current#1: sjdn(current) == sjdn(lunar.solar) && ssec(current) == 0 && inYears(current.year)
 //@   hint start#2: sjdn(start) == jqDay(lunar, 25) && ssec(start) == 0 && inYears(start.year)
-//@   hint start#3: sjdn(start) == shuJiuBase(lunar) && ssec(start) == 0 && inYears(start.year)
+//@   ghost B bool = current.IsBefore(start) @ start#2
+//@   cut start#3: start != nil && sjdn(start) == shuJiuBase(lunar) && ssec(start) == 0 && inYears(start.year) && validHms(start.hour, start.minute, start.second)
+//@   split ite(B, 1, 0) in 0..1
 //@   hint end#1: sjdn(end) == shuJiuBase(lunar)+81 && ssec(end) == 0
 //@   hint days#1: days == sjdn(lunar.solar)-shuJiuBase(lunar) && 0 <= days && days < 81
 
@@ -1011,24 +1014,38 @@ package calendar
 //@   domain y 1 9997
 //@   checked_by tables
 
-//@ # the lunar year number changes only after the last day of a month
-//@ lemma yearChangeAtMonthEnd(y int, j int) [C13]
+//@ # the lunar year number changes only after the last day of a month: inside a civil year (one table) ...
+//@ lemma yearChangeInYear(y int, j int) [C13]
 //@   reveal midx mYat mMat mFat mDat
-//@   requires 1 <= y && y <= 9997 && jdn(y, 1, 1) <= j && j <= jdn(y, 12, 31)
+//@   requires 1 <= y && y <= 9998 && jdn(y, 1, 1) <= j && j < jdn(y, 12, 31)
 //@   ensures implies(lunarYearOfDay(j+1) != mYat(y, midx(y, j)), j-mFat(y, midx(y, j))+1 == mDat(y, midx(y, j)) && mDat(y, midx(y, j)) >= 28)
+//@   use tableAx(y)
+//@   use yearOfDate(y, 1, 1)
+//@   use yearOfDate(y, 12, 31)
+//@   use yOfMono(jdn(y, 1, 1), j+1)
+//@   use yOfMono(j+1, jdn(y, 12, 31))
+//@   split midx(y, j) in 0..14
+
+//@ # ... and across 31 December / 1 January (two tables, seamAx)
+//@ lemma yearChangeAtSeam(y int) [C13]
+//@   reveal midx mYat mMat mFat mDat
+//@   requires 1 <= y && y <= 9997
+//@   ensures implies(lunarYearOfDay(jdn(y, 12, 31)+1) != mYat(y, midx(y, jdn(y, 12, 31))), jdn(y, 12, 31)-mFat(y, midx(y, jdn(y, 12, 31)))+1 == mDat(y, midx(y, jdn(y, 12, 31))) && mDat(y, midx(y, jdn(y, 12, 31))) >= 28)
 //@   use tableAx(y)
 //@   use tableAx(y+1)
 //@   use seamAx(y)
 //@   use yearOfDate(y+1, 1, 1)
-//@   use yearOfDate(y, 1, 1)
-//@   use yearOfDate(y, 12, 31)
 //@   use yearStep(y)
 //@   use dayLinear(y, 12, 31)
 //@   use monthStep(y, 12)
-//@   use yOfMono(jdn(y, 1, 1), j+1)
-//@   use yOfMono(j+1, jdn(y+1, 1, 1))
-//@   use yOfBracket(j+1)
-//@   split midx(y, j) in 0..14
+//@   split midx(y, jdn(y, 12, 31)) in 0..14
+//@   split midx(y+1, jdn(y, 12, 31)+1) in 0..14
+
+//@ lemma yearChangeAtMonthEnd(y int, j int) [C13]
+//@   requires 1 <= y && y <= 9997 && jdn(y, 1, 1) <= j && j <= jdn(y, 12, 31)
+//@   ensures implies(lunarYearOfDay(j+1) != mYat(y, midx(y, j)), j-mFat(y, midx(y, j))+1 == mDat(y, midx(y, j)) && mDat(y, midx(y, j)) >= 28)
+//@   use_if yearChangeInYear(y, j)
+//@   use yearChangeAtSeam(y)
 
 //@ # n days later on the lunar side is the lunar date of the civil day n days later
 //@ func (lunar *Lunar) Next(days int) *Lunar [C13 C01]
